@@ -5,6 +5,7 @@ Property theorems only (model: Model.lean; proofs: Lemmas / Invariant / Converge
 -/
 import SemaModel.C14.Witness
 import SemaModel.C14.Msgs
+import SemaModel.C14.ConcTerm
 import SemaModel.Generated.FactsC14
 namespace Sema.C14
 
@@ -234,6 +235,39 @@ theorem C14_concurrent_never_blocks (cfg : Cfg N K) (rkeys fkeys : List K) (c : 
     ∃ t, (cstepT cfg rkeys fkeys t c).isSome = true :=
   cstep_progress cfg rkeys fkeys c n hun hf
 
+/-- The concurrent program terminates under EVERY schedule, from ANY state: the number of effective
+steps of a schedule (`csteps`) is at most the measure `totalW` of the state it starts in (a natural
+number: per node, what its `Sync` still has to do), for any list `ups` that contains the nodes the
+schedule names.  No invariant is needed.  With `C14_concurrent_never_blocks`: every run can be
+continued until no thread can take a step, that takes at most `totalW` steps, and then every
+started node's `Sync` has returned — the hypothesis of `C14_converges_concurrent`
+(`C14_converges_concurrent_maximal`). -/
+theorem C14_concurrent_terminates (cfg : Cfg N K) (rkeys fkeys : List K) (ups : List N) (sched : List (Tid N))
+    (hin : ∀ t ∈ sched, t.node ∈ ups) (c : CSt N K) :
+    csteps cfg rkeys fkeys sched c ≤ totalW cfg rkeys fkeys ups c := by
+  have := csteps_le (cfg := cfg) (rkeys := rkeys) (fkeys := fkeys) ups sched hin c
+  omega
+
+/-- `C14_converges_concurrent` for MAXIMAL runs: if at the end of the schedule no thread of any node
+can take a step, then every started node's `Sync` returned nil and everything is `Placed`. -/
+theorem C14_converges_concurrent_maximal (cfg : Cfg N K) (hs : SumOK cfg) (hcs : 0 < cfg.cs) (htr : cfg.trunc0 = true)
+    (ro fo : K → Option Content) (nodes : List N) (rkeys fkeys : List K) (s0 s : St N K) (sched : List (Tid N))
+    (hne : ∀ k c, fo k = some c → c ≠ []) (hfd : ∀ k, (fo k).isSome → cfg.up (cfg.fowner k) = true)
+    (hcov : Covers cfg ro fo nodes rkeys fkeys) (hnd : fkeys.Nodup)
+    (h0 : Init cfg ro fo s0) (hr : Reachable cfg s0 s)
+    (hmax : ∀ t, cstepT cfg rkeys fkeys t (crun cfg rkeys fkeys sched (cinit s)) = none) :
+    Placed cfg ro fo (crun cfg rkeys fkeys sched (cinit s)).st ∧
+      ∀ n, cfg.up n = true → ((crun cfg rkeys fkeys sched (cinit s)).pc n).isDone = true ∧
+        (crun cfg rkeys fkeys sched (cinit s)).st.failed n = false := by
+  apply C14_converges_concurrent cfg hs hcs htr ro fo nodes rkeys fkeys s0 s sched hne hfd hcov hnd h0 hr
+  intro n hun
+  cases hf : finished (crun cfg rkeys fkeys sched (cinit s)) n with
+  | true => rfl
+  | false =>
+    obtain ⟨t, ht⟩ := cstep_progress cfg rkeys fkeys _ n hun hf
+    rw [hmax t] at ht
+    cases ht
+
 /-- After the synchronisation "all previously stored points remain readable through any node": a
 read that arrives at ANY started node `m` is routed to the routing owner of the key and answered
 from what the owner stores (`readRec` / `readFile`); after a concurrent round (hypotheses of
@@ -290,8 +324,6 @@ theorem C14_readable_after_round (cfg : Cfg N K) (hs : SumOK cfg) (hcs : 0 < cfg
 /-! non-vacuity (`Witness.lean`): three nodes; nodes 0 and 1 send to node 2 at the same time, node 0 runs
 two goroutines in phase 2; earlier attempts left record 0 on two nodes and the left-over `[4,5]` of shard
 3 at node 2.  `cSched` interleaves everything; all hypotheses hold, every `Sync` returns. -/
-set_option maxRecDepth 4000 in
-theorem cFinished : ∀ n, cCfg.up n = true → finished (crun cCfg cRkeys cFkeys cSched (cinit cS1)) n = true := by decide
 example : Placed cCfg cRo cFo (crun cCfg cRkeys cFkeys cSched (cinit cS1)).st :=
   (C14_converges_concurrent cCfg cSumOK (by decide) rfl cRo cFo [0, 1, 2] cRkeys cFkeys cS0 cS1 cSched
     (by decide) (by decide) cCovers (by decide) cInit cReach cFinished).1
@@ -311,6 +343,14 @@ example : readFile cCfg (crun cCfg cRkeys cFkeys cSched (cinit cS1)).st 0 3 = so
 /-- a node whose `Sync` has not returned can always take a step -/
 example : ∃ t, (cstepT cCfg cRkeys cFkeys t (crun cCfg cRkeys cFkeys (cSched.take 19) (cinit cS1))).isSome = true :=
   C14_concurrent_never_blocks cCfg cRkeys cFkeys _ 0 rfl (by decide)
+
+/-- `cSched` has 28 effective steps (three of its entries name threads that have nothing to do); the
+measure of the start state bounds the effective steps of every schedule over these nodes, and at the
+end of `cSched` nothing can move any more -/
+example : csteps cCfg cRkeys cFkeys cSched (cinit cS1) = 28 ∧ totalW cCfg cRkeys cFkeys [0, 1, 2] (cinit cS1) = 90 := by
+  decide
+example : csteps cCfg cRkeys cFkeys cSched (cinit cS1) ≤ totalW cCfg cRkeys cFkeys [0, 1, 2] (cinit cS1) :=
+  C14_concurrent_terminates cCfg cRkeys cFkeys [0, 1, 2] cSched (by decide) (cinit cS1)
 
 /-! facts of the source the model relies on (T2), re-checked against the working tree on every run -/
 example : Gen.C14.truncEveryChunk = false := by decide
@@ -390,6 +430,32 @@ theorem C14_epochs_converges (w0 w : World N K) (hs : SumOK w0.cfg) (hcs : 0 < w
   exact ⟨p, q, fun k hk => ⟨hk, fun n hn hno => p.rnone n k hn hno⟩,
     fun k hk => ⟨hk, fun n hn hno => p.fnone n k hn hno⟩, wreach_sync hr r1⟩
 
+/-- The same for CONCURRENT rounds: from every world of every history, for EVERY schedule of the started
+nodes' `Sync` programs and their goroutines (`crun`): if every started node's `Sync` has returned at
+the end of the schedule, none failed, the current version of every record and shard file is at its
+routing owner, byte-identical, and on no other started node; client writes are enabled again and the
+result continues the history.  Hypotheses as for `C14_epochs_converges` (in particular the list changes
+of the history are `Safe`, which includes `Safe.fc`: at most one started non-owner holds a given shard
+— with two such holders the chunks of two concurrent senders interleave in the owner's file, see the
+example below), plus `fkeys.Nodup`. -/
+theorem C14_epochs_converges_concurrent (w0 w : World N K) (hs : SumOK w0.cfg) (hcs : 0 < w0.cfg.cs)
+    (htr : w0.cfg.trunc0 = true) (hne : ∀ k c, w0.fo k = some c → c ≠ []) (h0 : WInit w0) (hr : WReach w0 w)
+    (nodes : List N) (rkeys fkeys : List K) (sched : List (Tid N))
+    (hcov : Covers w.cfg w.ro w.fo nodes rkeys fkeys) (hnd : fkeys.Nodup)
+    (hfd : ∀ k, (w.fo k).isSome → w.cfg.up (w.cfg.fowner k) = true)
+    (hfin : ∀ n, w.cfg.up n = true → finished (crun w.cfg rkeys fkeys sched (cinit w.st)) n = true) :
+    let w' : World N K := { w with st := (crun w.cfg rkeys fkeys sched (cinit w.st)).st }
+    PlacedW w.cfg w.ro w.fo w'.st ∧ (∀ n, w.cfg.up n = true → w'.st.failed n = false) ∧
+      (∀ k, w.cfg.up (w.cfg.owner k) = true → QuietR w' k) ∧
+      (∀ k, w.cfg.up (w.cfg.fowner k) = true → QuietF w' k) ∧ WReach w0 w' := by
+  obtain ⟨i, c1, c2, c3⟩ := winv_reach hs h0 hr
+  have hg : Good w.cfg w.fo :=
+    ⟨sumOK_congr c3 hs, by rw [c1]; exact hcs, by rw [c2]; exact htr, wreach_nonempty hne hr, hfd⟩
+  obtain ⟨hc, hreach⟩ := cinv_run ⟨hg, hcov, hnd⟩ w.st sched (cinit w.st) (cinv_init i) .init
+  obtain ⟨hdone, p⟩ := cinv_finished hc hfin
+  exact ⟨p, fun n hn => (hdone n hn).2, fun k hk => ⟨hk, fun n hn hno => p.rnone n k hn hno⟩,
+    fun k hk => ⟨hk, fun n hn hno => p.fnone n k hn hno⟩, wreach_sync hr hreach⟩
+
 /-- Which changes of the list are `Safe`: in every world of every history it suffices that running
 nodes keep running, that a node which comes back holds out-of-date copies only of keys the new
 routing assigns to it (it received them under the same list before the change was rolled back:
@@ -446,6 +512,28 @@ record) is the owner, node 2 ships `[1]` as if it were current and the record `[
 example : safeB (eW 7) (fun _ => 0) (fun _ => 0) (fun _ => true) [0, 1, 2] [0] [1] = false := by decide
 example : (round eWbad.cfg [0, 1, 2] [0] [1] [2, 0, 1] eWbad.st).recs 0 0 = some [1] ∧
     (round eWbad.cfg [0, 1, 2] [0] [1] [2, 0, 1] eWbad.st).recs 2 0 = none ∧ eWbad.ro 0 = some [1, 9] := by decide
+
+/-- non-vacuity of `C14_epochs_converges_concurrent`: the history of `Witness.lean` (older copy `[1]` of
+record 0 on node 2, current `[1,9]` on node 0, owner node 2), all three nodes synchronising at once -/
+example : (crun (eW 8).cfg [0] [1] eSched (cinit (eW 8).st)).st.recs 2 0 = some [1, 9] :=
+  (C14_epochs_converges_concurrent eW0 (eW 8) eSumOK (by decide) rfl (by decide) eInit eReach [0, 1, 2] [0] [1] eSched
+    eCovers (by decide) (by decide) eFinished).1.rown 0 [1, 9] (by decide)
+
+/-- `Safe.fc` cannot be dropped for concurrent rounds: two started non-owners (nodes 0 and 1) hold the
+same shard `[1,2,3]` (chunk size 2; possible only when the list changes AGAIN before an interrupted
+move was completed — outside the property's quantifier).  Sequentially both transfers succeed
+(`C14_converges` does not need the restriction on such a state); when their chunks interleave in the
+owner's file both checksum comparisons fail, both `Sync`s return an error and nothing has moved — no
+loss, but no convergence under that schedule either. -/
+example : (crun dCfg [] [0] dSchedSeq (cinit dS)).st.files 2 0 = some [1, 2, 3] ∧
+    (crun dCfg [] [0] dSchedSeq (cinit dS)).st.files 0 0 = none ∧ (crun dCfg [] [0] dSchedSeq (cinit dS)).st.files 1 0 = none ∧
+    (crun dCfg [] [0] dSchedSeq (cinit dS)).st.failed 0 = false ∧ (crun dCfg [] [0] dSchedSeq (cinit dS)).st.failed 1 = false := by
+  decide
+example : (crun dCfg [] [0] dSchedMix (cinit dS)).st.files 2 0 = some [1, 2, 3, 3] ∧
+    (crun dCfg [] [0] dSchedMix (cinit dS)).st.failed 0 = true ∧ (crun dCfg [] [0] dSchedMix (cinit dS)).st.failed 1 = true ∧
+    (crun dCfg [] [0] dSchedMix (cinit dS)).st.files 0 0 = some [1, 2, 3] ∧
+    (crun dCfg [] [0] dSchedMix (cinit dS)).st.files 1 0 = some [1, 2, 3] := by
+  decide
 
 /-! ## the pinned receiver (no truncation): convergence is false -/
 
